@@ -68,9 +68,9 @@ DIMS = [
     ("window", ["full", "multi", "partial", "late_start", "no_season", "leap_start", "leap_end", "short_around_planting"]),
     ("off_season", [False, True]),
     ("ETadj", [1, 0]),
-    ("PlantMethod", [1, 0]),
+    ("PlantMethod", ["crop", 0, 1]),
     ("Determinant", ["crop", 0, 1]),
-    ("GDDmethod", [3, 1, 2]),
+    ("GDDmethod", ["crop", 1, 2, 3]),
     ("TrColdStress", [1, 0]),
     ("PolHeatStress", [1, 0]),
     ("PolColdStress", [1, 0]),
@@ -180,7 +180,7 @@ def build(row, seed):
     # crop
     ckw = {}
     for k in ("ETadj", "PlantMethod", "GDDmethod", "TrColdStress", "PolHeatStress", "PolColdStress", "SwitchGDD"):
-        if row[k] != DEFAULT_ROW[k] or k in ("GDDmethod", "PlantMethod"):
+        if row[k] != DEFAULT_ROW[k]:
             ckw[k] = row[k]
     if row["Determinant"] != "crop":
         ckw["Determinant"] = row["Determinant"]
@@ -508,12 +508,15 @@ def attribute(results):
         for r in rs:
             s = {(d, r["row"][d]) for d in DIMNAMES}
             common = s if common is None else (common & s)
-        cands = sorted(common, key=lambda c: (-(len(rs) / nval[c]), c[1] == DEFAULT_ROW[c[0]], DIMNAMES.index(c[0])))
+        # rank: share of (failing-this-way + completed) runs with the value that fail this way, then share of all its runs
+        cands = sorted(common, key=lambda c: (-(len(rs) / (len(rs) + nok.get(c, 0))), -(len(rs) / nval[c]),
+                                              c[1] == DEFAULT_ROW[c[0]], DIMNAMES.index(c[0])))
         if not cands:
             causes[sig] = None
             continue
         c = cands[0]
-        causes[sig] = (c[0], c[1], len(rs), nval[c], nok.get(c, 0))
+        strong = len(rs) / (len(rs) + nok.get(c, 0)) >= 0.5
+        causes[sig] = (c[0], c[1], len(rs), nval[c], nok.get(c, 0), strong)
     return by_sig, causes
 
 
@@ -535,6 +538,7 @@ def main():
     lattice = ""
     npass = 0
     replaced_log = []
+    minimal = {}
     try:
         import multiprocessing as mp
         if quick:
@@ -552,7 +556,7 @@ def main():
         extra = []
         ex_spec = [("Wheat", "SandyLoam", "three"), ("Maize", "Loam", "coarse"), ("Tomato", "Clay", "three")]
         if not quick:
-            ex_spec += [("PaddyRice", "Paddy", "three"), ("Potato", "SandyLoam", "coarse"), ("AlfalfaGDD", "SiltLoam", "three")]
+            ex_spec += [("PaddyRice", "Clay", "three"), ("Potato", "SandyLoam", "coarse"), ("AlfalfaGDD", "SiltLoam", "three")]
         for c, s, dzv in ex_spec:
             r = dict(DEFAULT_ROW)
             r.update(crop=c, soil=s, dz=dzv)
@@ -578,7 +582,7 @@ def main():
                 todo = []
                 repl = {}
                 for sig, c in causes.items():
-                    if c is not None and c[0] not in NO_REPLACE and c[1] != DEFAULT_ROW[c[0]]:
+                    if c is not None and c[5] and c[0] not in NO_REPLACE and c[1] != DEFAULT_ROW[c[0]]:
                         repl[sig] = (c[0], c[1])
                 for r in out:
                     if r["status"] == "fail" and r["sig"] in repl and r["idx"] >= n_extra:
@@ -591,6 +595,37 @@ def main():
                         msg = f"{c[0]}={c[1]} -> {DEFAULT_ROW[c[0]]} in rows failing with '{sig[:70]}'"
                         if msg not in replaced_log:
                             replaced_log.append(msg)
+            # ---- minimised reproductions (extra runs, same pool)
+            try:
+                by_sig0, causes0 = attribute([r for _, r in all_results])
+                mjobs = []
+                mmap = {}
+                k = 10 ** 6
+                for sig in sorted(by_sig0):
+                    rs = sorted(by_sig0[sig], key=lambda r: (sum(1 for d in DIMNAMES[3:] if r["row"][d] != DEFAULT_ROW[d]), row_sig(r["row"])))
+                    r0 = rs[0]["row"]
+                    c = causes0.get(sig)
+                    variants = []
+                    for keep in (("crop", "soil"), ("crop", "soil", "planting", "window"), ("crop", "soil", "irr", "planting", "window", "climate", "off_season", "gw")):
+                        m = dict(DEFAULT_ROW)
+                        for d in keep:
+                            m[d] = r0[d]
+                        if c:
+                            m[c[0]] = c[1]
+                        if m not in variants and m != r0:
+                            variants.append(m)
+                    for m in variants:
+                        mjobs.append((k, m, a.seed, tmo))
+                        mmap[k] = sig
+                        k += 1
+                if mjobs and time.time() - t0 < budget * 0.85:
+                    mout = run_jobs(pool, mjobs, deadline, exceptions)
+                    for r in mout:
+                        all_results.append(("min", r))
+                        if r["status"] == "fail" and r["sig"] == mmap[r["idx"]]:
+                            minimal.setdefault(r["sig"], r)
+            except Exception as exc:  # noqa: BLE001
+                exceptions.append(f"minimisation: {type(exc).__name__}: {exc}")
         lattice = (
             f"BOUNDED (not proved). Pairwise-covering design over {len(DIMS)} dimensions: "
             + "; ".join(f"{d}({len(v)})" for d, v in DIMS)
@@ -604,7 +639,8 @@ def main():
             + f"nominal pair coverage {cov}/{tot} value pairs" + (" (crop x soil pairs excluded in quick)" if quick else "")
             + (f", missing e.g. {missing}" if cov < tot else "")
             + f"; plus {n_extra} hand-placed rows with compartment lists dz=[0.1]*3 / [0.3]*5 (defaults otherwise). "
-            f"Per-case timeout {tmo} s (SIGALRM in the worker). Adaptive re-runs: {npass} pass(es), {len(all_results)} model runs in total; "
+            f"Per-case timeout {tmo} s (SIGALRM in the worker). Adaptive re-runs: {npass} pass(es), {len(all_results)} model runs in total "
+            f"(including {sum(1 for p_, _ in all_results if p_ == 'min')} minimised reproductions of failing rows); "
             f"replacements: {replaced_log if replaced_log else 'none'}.")
     except Exception as exc:  # noqa: BLE001
         exceptions.append(f"driver: {type(exc).__name__}: {exc} {traceback.format_exc(limit=4)[-600:]}")
@@ -620,10 +656,16 @@ def main():
         rs = sorted(by_sig[sig], key=lambda r: row_sig(r["row"]))
         # smallest example = fewest non-default values
         rs.sort(key=lambda r: sum(1 for d in DIMNAMES[3:] if r["row"][d] != DEFAULT_ROW[d]))
-        r0 = rs[0]
+        r0 = minimal.get(sig, rs[0])
         c = causes.get(sig)
-        cause = (f"most specific common value {c[0]}={c[1]}: present in all {c[2]} failing run(s) with this signature; of {c[3]} run(s) with that value "
-                 f"{c[2]} failed this way and {c[4]} completed" if c else "no option value common to all failing runs")
+        if c and c[5]:
+            cause = (f"attributed to {c[0]}={c[1]}: present in all {c[2]} failing run(s) with this signature; of {c[3]} run(s) with that value "
+                     f"{c[2]} failed this way and {c[4]} completed")
+        elif c:
+            cause = (f"no single option value explains it (best common value {c[0]}={c[1]}: {c[2]} failed this way, {c[4]} completed) - "
+                     f"combination-, crop- or data-dependent")
+        else:
+            cause = "no option value common to all failing runs"
         crops = sorted({r["row"]["crop"] for r in rs})
         failures.append({
             "signature": sig,
